@@ -12,6 +12,10 @@ import (
 	"time"
 )
 
+// Limit is the capacity of one direction in bytes (0 = unbounded): like a socket buffer, a
+// writer blocks while the peer does not read.
+var Limit = 0
+
 type half struct {
 	mu     sync.Mutex
 	cond   *sync.Cond
@@ -61,6 +65,7 @@ func (c *Conn) Read(p []byte) (int, error) {
 		if len(h.buf) > 0 {
 			n := copy(p, h.buf)
 			h.buf = h.buf[n:]
+			h.cond.Broadcast()
 			return n, nil
 		}
 		if h.wclose {
@@ -96,12 +101,48 @@ func (c *Conn) Write(p []byte) (int, error) {
 	h := c.wr
 	h.mu.Lock()
 	defer h.mu.Unlock()
-	if h.rclose || h.wclose {
-		return 0, io.ErrClosedPipe
+	written := 0
+	for {
+		if h.rclose || h.wclose {
+			return written, io.ErrClosedPipe
+		}
+		c.mu.Lock()
+		closed, dl = c.closed, c.wdl
+		c.mu.Unlock()
+		if closed {
+			return written, io.ErrClosedPipe
+		}
+		room := len(p) - written
+		if Limit > 0 {
+			room = Limit - len(h.buf)
+			if room > len(p)-written {
+				room = len(p) - written
+			}
+		}
+		if room > 0 {
+			h.buf = append(h.buf, p[written:written+room]...)
+			written += room
+			h.cond.Broadcast()
+			if written == len(p) {
+				return written, nil
+			}
+			continue
+		}
+		if !dl.IsZero() && !time.Now().Before(dl) {
+			return written, os.ErrDeadlineExceeded
+		}
+		if !dl.IsZero() {
+			t := time.AfterFunc(time.Until(dl)+time.Millisecond, func() {
+				h.mu.Lock()
+				h.cond.Broadcast()
+				h.mu.Unlock()
+			})
+			h.cond.Wait()
+			t.Stop()
+		} else {
+			h.cond.Wait()
+		}
 	}
-	h.buf = append(h.buf, p...)
-	h.cond.Broadcast()
-	return len(p), nil
 }
 
 // Close closes both directions of this end.
@@ -132,6 +173,9 @@ func (c *Conn) SetDeadline(t time.Time) error {
 	c.rdl, c.wdl = t, t
 	c.mu.Unlock()
 	c.wake()
+	c.wr.mu.Lock()
+	c.wr.cond.Broadcast()
+	c.wr.mu.Unlock()
 	return nil
 }
 
@@ -147,6 +191,9 @@ func (c *Conn) SetWriteDeadline(t time.Time) error {
 	c.mu.Lock()
 	c.wdl = t
 	c.mu.Unlock()
+	c.wr.mu.Lock()
+	c.wr.cond.Broadcast()
+	c.wr.mu.Unlock()
 	return nil
 }
 
